@@ -1,10 +1,19 @@
 import OZ.Model.Timelock
+import OZ.Model.Access
 /-
 Model of examples/timelock-controller/src/contract.rs (after the `fix:` commit that makes
 `__check_auth` reject a descriptor vector whose length differs from the number of authorized
-contexts), on top of the timelock model (OZ/Model/Timelock.lean, C08) and a plain-set model
-of the access-control roles (packages/access/src/access_control/storage.rs: `has_role`,
-`get_role_member_count`, `grant_role`, `revoke_role`, `enforce_admin_auth`, admin transfer).
+contexts), on top of the timelock model (OZ/Model/Timelock.lean, C08) and of the access-control
+model of C06 (OZ/Model/Access.lean: roles with their enumeration, role admins, the admin
+hand-over machine of OZ/Model/RoleTransfer.lean). The controller exposes the whole
+`AccessControl` trait (`impl AccessControl for TimelockController {}`): `grant_role`,
+`revoke_role`, `renounce_role`, `set_role_admin`, `transfer_admin_role`,
+`accept_admin_transfer`, `renounce_admin`; all of them are entry points here. The library
+functions are reused from `OZ.Access` / `OZ.RoleTransfer` below their `require_auth` line
+(`ensure_if_admin_or_admin_role`, `grant_role_no_auth`, `revoke_role_no_auth`,
+`set_role_admin_no_auth`, `transfer_role`, `accept_admin_transfer`, the pending test of
+`renounce_admin`); the `require_auth` itself is modelled here because the address that must
+authorize may be the controller.
 
 Addresses are naturals; `self` is the controller's own address. Argument values (`Val`) of the
 controller's own entry points are coded injectively as naturals (`vU32`, `vAddr`, `vSym`).
@@ -19,11 +28,16 @@ Authorization. Every top-level invocation carries
   `self.require_auth()` succeeds iff the host's call of `__check_auth` (here `checkAuth`) with
   that payload and the invocation as the single context returns Ok; its state changes (operations
   marked done) are part of the invocation.
-The controller is assumed to hold none of the proposer / executor / canceller roles itself
-(`requireAuthPlain` rejects it); the harness never grants it one.
+In `schedule_op` / `cancel_op` / `execute_op` / `accept_admin_transfer` the authorizing account is
+assumed not to be the controller itself (`requireAuthPlain`, `plainAuth` reject it; the arguments
+of those calls are not coded as `Val`s); the harness never makes the controller a proposer,
+canceller, executor or pending admin.
 -/
 namespace OZ.TimelockController
 open OZ.Host OZ.Timelock
+
+abbrev AC := OZ.Access.State
+abbrev RT := OZ.RoleTransfer.State
 
 def PROPOSER : Nat := 0
 def EXECUTOR : Nat := 1
@@ -34,17 +48,20 @@ def vU32 (n : Nat) : Nat := 3 * n
 def vAddr (a : Nat) : Nat := 3 * a + 1
 def vSym (r : Nat) : Nat := 3 * r + 2
 
-/-- function symbols of the controller's admin-only entry points -/
+/-- function symbols of the entry points whose guard may be the controller's own `require_auth` -/
 def FN_UPDATE_DELAY : Nat := 0
 def FN_GRANT_ROLE : Nat := 1
 def FN_REVOKE_ROLE : Nat := 2
 def FN_TRANSFER_ADMIN : Nat := 3
 def FN_RENOUNCE_ADMIN : Nat := 4
+def FN_SET_ROLE_ADMIN : Nat := 5
+def FN_RENOUNCE_ROLE : Nat := 6
 
 inductive CErr where
   | timelock (e : Timelock.Err)
-  | unauthorized | auth | panic | adminNotSet | roleNotHeld | noPendingTransfer
-  | invalidPendingAccount | invalidLiveUntil | transferInProgress | lengthMismatch
+  | access (e : OZ.Access.Err)
+  | transfer (e : OZ.RoleTransfer.Err)
+  | unauthorized | auth | panic | adminNotSet | lengthMismatch
   deriving DecidableEq, Repr
 
 /-- `struct OperationMeta` -/
@@ -68,29 +85,54 @@ inductive AuthTok where
 structure CState where
   tl : Timelock.State
   self : Nat
-  admin : Option Nat                  -- AccessControlStorageKey::Admin
-  pending : Option (Nat × Nat)        -- PendingAdmin (temporary entry): account, live-until ledger
-  roles : Nat → List Nat              -- members of each role
-  maxTtl : Nat                        -- host `max_entry_ttl`
+  ac : AC                 -- roles, role admins, Admin / PendingAdmin (C06's model)
+  cfg : Cfg               -- host ledger configuration (lifetime of the pending-admin entry)
 
-def CState.hasRole (c : CState) (r a : Nat) : Bool := (c.roles r).contains a
+/-- `get_admin` -/
+def CState.admin (c : CState) : Option Nat := OZ.Access.getAdmin c.ac
+
+/-- `has_role(account, role).is_some()` -/
+def CState.hasRole (c : CState) (r a : Nat) : Bool := (OZ.Access.hasRoleQ c.ac a r).isSome
+
+/-- `get_role_member_count(EXECUTOR_ROLE)` -/
+def CState.executorCount (c : CState) : Nat := OZ.Access.cnt c.ac EXECUTOR
+
+def withAc (c : CState) (r : Except OZ.Access.Err AC) : Except CErr CState :=
+  match r with
+  | .ok a => .ok { c with ac := a }
+  | .error e => .error (.access e)
+
+def withAdm (c : CState) (r : Except OZ.RoleTransfer.Err RT) : Except CErr CState :=
+  match r with
+  | .ok t => .ok { c with ac := { c.ac with adm := t } }
+  | .error e => .error (.transfer e)
+
+
+def liftTl (c : CState) (r : Except Timelock.Err Timelock.State) : Except CErr CState :=
+  match r with
+  | .ok tl' => .ok { c with tl := tl' }
+  | .error e => .error (.timelock e)
+
+/-- `grant_role_no_auth` inside the constructor (it cannot fail there; a failure would abort the
+deployment) -/
+def grantOrKeep (s : AC) (account role caller : Nat) : AC :=
+  match OZ.Access.grantRoleNoAuth s account role caller with
+  | .ok s' => s'
+  | .error _ => s
 
 /-- `TimelockController::__constructor` -/
 def construct (now maxTtl self minDelay : Nat) (proposers executors : List Nat) (admin : Option Nat) : CState :=
-  { tl := setMinDelay (Timelock.init now) minDelay
-    self := self
-    admin := some (admin.getD self)
-    pending := none
-    roles := fun r =>
-      if r = PROPOSER ∨ r = CANCELLER then proposers.eraseDups
-      else if r = EXECUTOR then executors.eraseDups else []
-    maxTtl := maxTtl }
+  let adminAddr := admin.getD self
+  let s0 := OZ.Access.init (some adminAddr) none now
+  let s1 := proposers.foldl (fun s p => grantOrKeep (grantOrKeep s p PROPOSER adminAddr) p CANCELLER adminAddr) s0
+  let s2 := executors.foldl (fun s x => grantOrKeep s x EXECUTOR adminAddr) s1
+  { tl := setMinDelay (Timelock.init now) minDelay, self := self, ac := s2, cfg := ⟨16, maxTtl⟩ }
 
 /-! ### `__check_auth` -/
 
 /-- the executor part of one loop iteration of `__check_auth` -/
 def execGate (c : CState) (auth : List AuthTok) (fn : Nat) (args : List Nat) (m : Meta) : Except CErr Unit :=
-  if (c.roles EXECUTOR).length = 0 then .ok ()
+  if c.executorCount = 0 then .ok ()
   else
     match m.executor with
     | none => .error .panic
@@ -98,11 +140,6 @@ def execGate (c : CState) (auth : List AuthTok) (fn : Nat) (args : List Nat) (m 
       if !c.hasRole EXECUTOR ex then .error .unauthorized
       else if AuthTok.exec ex c.self fn args m.pred m.salt ∈ auth then .ok ()
       else .error .auth
-
-def liftTl (c : CState) (r : Except Timelock.Err Timelock.State) : Except CErr CState :=
-  match r with
-  | .ok tl' => .ok { c with tl := tl' }
-  | .error e => .error (.timelock e)
 
 /-- one iteration of the loop of `__check_auth` -/
 def checkOne (c : CState) (auth : List AuthTok) (ctx : Context) (m : Meta) : Except CErr CState :=
@@ -142,28 +179,35 @@ def requireAuthPlain (c : CState) (auth : List AuthTok) (who : Nat) : Except CEr
   if who = c.self then .error .auth
   else if AuthTok.call who ∈ auth then .ok () else .error .auth
 
+/-- the ordinary accounts that authorized this invocation (for the library functions of
+`OZ.RoleTransfer` that take a plain list) -/
+def plainAuth (c : CState) (auth : List AuthTok) : List Nat :=
+  auth.filterMap (fun t => match t with
+    | .call a => if a = c.self then none else some a
+    | _ => none)
+
+abbrev Check := CState → List AuthTok → List Meta → List Context → Except CErr CState
+
 /-- `who.require_auth()` inside the invocation `(self, fn, args)`: the controller's own address
 is authorized by `__check_auth` over the attached payload, anybody else by a signature -/
-def requireAuth (check : CState → List AuthTok → List Meta → List Context → Except CErr CState)
-    (c : CState) (auth : List AuthTok) (sig : Option (List Meta)) (who fn : Nat) (args : List Nat) :
-    Except CErr CState :=
+def requireAuth (check : Check) (c : CState) (auth : List AuthTok) (sig : Option (List Meta))
+    (who fn : Nat) (args : List Nat) : Except CErr CState :=
   if who = c.self then
     match sig with
     | none => .error .auth
     | some metas => check c auth metas [.contract c.self fn args]
   else if AuthTok.call who ∈ auth then .ok c else .error .auth
 
-/-- `enforce_admin_auth` -/
-def enforceAdminAuth (check : CState → List AuthTok → List Meta → List Context → Except CErr CState)
-    (c : CState) (auth : List AuthTok) (sig : Option (List Meta)) (fn : Nat) (args : List Nat) :
-    Except CErr CState :=
+/-- `enforce_admin_auth` (also the first lines of `set_role_admin`) -/
+def enforceAdminAuth (check : Check) (c : CState) (auth : List AuthTok) (sig : Option (List Meta))
+    (fn : Nat) (args : List Nat) : Except CErr CState :=
   match c.admin with
   | none => .error .adminNotSet
   | some a => requireAuth check c auth sig a fn args
 
 /-! ### entry points -/
 
-/-- `schedule_op` (`#[only_role(proposer, "proposer")]`) -/
+/-- `schedule_op` (`#[only_role(proposer, "proposer")]`: `ensure_role`, `require_auth`, body) -/
 def scheduleOp (c : CState) (auth : List AuthTok) (op : Operation) (delay proposer : Nat) : Except CErr CState :=
   if !c.hasRole PROPOSER proposer then .error .unauthorized
   else
@@ -181,7 +225,7 @@ def cancelOp (c : CState) (auth : List AuthTok) (id : Id) (canceller : Nat) : Ex
 
 /-- the executor guard of `execute_op` -/
 def executorGate (c : CState) (auth : List AuthTok) (executor : Option Nat) : Except CErr Unit :=
-  if (c.roles EXECUTOR).length = 0 then .ok ()
+  if c.executorCount = 0 then .ok ()
   else
     match executor with
     | none => .error .panic
@@ -194,8 +238,6 @@ def executeOp (c : CState) (auth : List AuthTok) (op : Operation) (executor : Op
   | .error e => .error e
   | .ok _ => liftTl c (execute c.tl op callOk)
 
-abbrev Check := CState → List AuthTok → List Meta → List Context → Except CErr CState
-
 /-- `update_delay` (`#[only_admin]`) -/
 def updateDelayW (check : Check) (c : CState) (auth : List AuthTok) (sig : Option (List Meta)) (newDelay : Nat) :
     Except CErr CState :=
@@ -203,75 +245,77 @@ def updateDelayW (check : Check) (c : CState) (auth : List AuthTok) (sig : Optio
   | .error e => .error e
   | .ok c1 => .ok { c1 with tl := setMinDelay c1.tl newDelay }
 
-/-- `ensure_if_admin_or_admin_role` (no role admins are configured in this contract) -/
-def ensureAdmin (c : CState) (caller : Nat) : Except CErr Unit :=
-  if c.admin = some caller then .ok () else .error .unauthorized
+/-- `ensure_if_admin_or_admin_role`, then the no-auth body -/
+def guardedRoleChange (c1 : CState) (role caller : Nat) (body : Except OZ.Access.Err AC) : Except CErr CState :=
+  match OZ.Access.ensureIfAdminOrAdminRole c1.ac role caller with
+  | .error e => .error (.access e)
+  | .ok _ => withAc c1 body
 
-def setRole (c : CState) (r : Nat) (l : List Nat) : CState :=
-  { c with roles := fun x => if x = r then l else c.roles x }
-
-/-- `grant_role` -/
+/-- `grant_role`: `caller.require_auth()`, `ensure_if_admin_or_admin_role`, `grant_role_no_auth` -/
 def grantRoleW (check : Check) (c : CState) (auth : List AuthTok) (sig : Option (List Meta))
     (account role caller : Nat) : Except CErr CState :=
   match requireAuth check c auth sig caller FN_GRANT_ROLE [vAddr account, vSym role, vAddr caller] with
   | .error e => .error e
-  | .ok c1 =>
-    match ensureAdmin c1 caller with
-    | .error e => .error e
-    | .ok _ => if c1.hasRole role account then .ok c1 else .ok (setRole c1 role (c1.roles role ++ [account]))
+  | .ok c1 => guardedRoleChange c1 role caller (OZ.Access.grantRoleNoAuth c1.ac account role caller)
 
 /-- `revoke_role` -/
 def revokeRoleW (check : Check) (c : CState) (auth : List AuthTok) (sig : Option (List Meta))
     (account role caller : Nat) : Except CErr CState :=
   match requireAuth check c auth sig caller FN_REVOKE_ROLE [vAddr account, vSym role, vAddr caller] with
   | .error e => .error e
-  | .ok c1 =>
-    match ensureAdmin c1 caller with
-    | .error e => .error e
-    | .ok _ =>
-      if !c1.hasRole role account then .error .roleNotHeld
-      else .ok (setRole c1 role ((c1.roles role).erase account))
+  | .ok c1 => guardedRoleChange c1 role caller (OZ.Access.revokeRoleNoAuth c1.ac account role caller)
 
-/-- the live pending admin (`storage().temporary().get(PendingAdmin)`) -/
-def livePending (c : CState) : Option Nat :=
-  match c.pending with
-  | some (p, lu) => if c.tl.now ≤ lu then some p else none
-  | none => none
+/-- `renounce_role`: `caller.require_auth()`, then the caller's own membership is removed -/
+def renounceRoleW (check : Check) (c : CState) (auth : List AuthTok) (sig : Option (List Meta))
+    (role caller : Nat) : Except CErr CState :=
+  match requireAuth check c auth sig caller FN_RENOUNCE_ROLE [vSym role, vAddr caller] with
+  | .error e => .error e
+  | .ok c1 => withAc c1 (OZ.Access.revokeRoleNoAuth c1.ac caller role caller)
 
-/-- `role_transfer::transfer_role` on the pending-admin key -/
-def transferRole (c : CState) (newAdmin lu : Nat) : Except CErr CState :=
-  if lu = 0 then
-    match livePending c with
-    | none => .error .noPendingTransfer
-    | some p => if p ≠ newAdmin then .error .invalidPendingAccount else .ok { c with pending := none }
-  else if lu > c.tl.now + c.maxTtl - 1 ∨ lu < c.tl.now then .error .invalidLiveUntil
-  else .ok { c with pending := some (newAdmin, lu) }
+/-- `set_role_admin`: the admin authorizes, `set_role_admin_no_auth` -/
+def setRoleAdminW (check : Check) (c : CState) (auth : List AuthTok) (sig : Option (List Meta))
+    (role adminRole : Nat) : Except CErr CState :=
+  match enforceAdminAuth check c auth sig FN_SET_ROLE_ADMIN [vSym role, vSym adminRole] with
+  | .error e => .error e
+  | .ok c1 => .ok { c1 with ac := OZ.Access.setRoleAdminNoAuth c1.ac role adminRole }
 
-/-- `transfer_admin_role` -/
+/-- `transfer_admin_role`: `enforce_admin_auth`, `role_transfer::transfer_role` on the pending-admin
+key, event -/
 def transferAdminW (check : Check) (c : CState) (auth : List AuthTok) (sig : Option (List Meta))
     (newAdmin lu : Nat) : Except CErr CState :=
   match enforceAdminAuth check c auth sig FN_TRANSFER_ADMIN [vAddr newAdmin, vU32 lu] with
   | .error e => .error e
-  | .ok c1 => transferRole c1 newAdmin lu
+  | .ok c1 =>
+    withAdm c1 ((OZ.RoleTransfer.transferRole c1.cfg c1.ac.adm newAdmin lu).map
+      (fun t => OZ.RoleTransfer.emit t (.initiated (c.admin.getD 0) newAdmin lu)))
 
 /-- `accept_admin_transfer` -/
 def acceptAdmin (c : CState) (auth : List AuthTok) : Except CErr CState :=
-  match c.admin with
-  | none => .error .adminNotSet
-  | some _ =>
-    match livePending c with
-    | none => .error .noPendingTransfer
-    | some p =>
-      match requireAuthPlain c auth p with
-      | .error e => .error e
-      | .ok _ => .ok { c with admin := some p, pending := none }
+  withAdm c (OZ.RoleTransfer.acceptAdmin c.ac.adm (plainAuth c auth))
+
+def setAdm (a : AC) (t : RT) : AC := { a with adm := t }
+def dropHolder (t : RT) : RT := { t with holder := none }
+def tick (t : RT) (n : Nat) : RT := { t with now := t.now + n }
+def tickAc (a : AC) (n : Nat) : AC := { a with adm := tick a.adm n, own := tick a.own n }
+
+/-- the tail of `renounce_admin` after `enforce_admin_auth` -/
+def dropAdmin (c1 : CState) (h : Nat) : Except CErr CState :=
+  match OZ.RoleTransfer.refuseIfPending c1.ac.adm with
+  | .error e => .error (.transfer e)
+  | .ok _ => .ok { c1 with ac := setAdm c1.ac (OZ.RoleTransfer.emit (dropHolder c1.ac.adm) (.renounced h)) }
 
 /-- `renounce_admin` -/
 def renounceAdminW (check : Check) (c : CState) (auth : List AuthTok) (sig : Option (List Meta)) :
     Except CErr CState :=
   match enforceAdminAuth check c auth sig FN_RENOUNCE_ADMIN [] with
   | .error e => .error e
-  | .ok c1 => if (livePending c1).isSome then .error .transferInProgress else .ok { c1 with admin := none }
+  | .ok c1 => dropAdmin c1 (c.admin.getD 0)
+
+/-- the ledger sequence moves: the timelock's clock and the clocks of the hand-over machines -/
+def advanceC (c : CState) (n : Nat) : Except CErr CState :=
+  match advance c.tl n with
+  | .error e => .error (.timelock e)
+  | .ok tl' => .ok { c with tl := tl', ac := tickAc c.ac n }
 
 /-! ### the controller as a state machine -/
 
@@ -282,6 +326,8 @@ inductive Entry where
   | updateDelay (newDelay : Nat)
   | grantRole (account role caller : Nat)
   | revokeRole (account role caller : Nat)
+  | renounceRole (role caller : Nat)
+  | setRoleAdmin (role adminRole : Nat)
   | transferAdmin (newAdmin lu : Nat)
   | acceptAdmin
   | renounceAdmin
@@ -297,11 +343,13 @@ def applyW (check : Check) (c : CState) (auth : List AuthTok) (sig : Option (Lis
   | .updateDelay d => updateDelayW check c auth sig d
   | .grantRole a r k => grantRoleW check c auth sig a r k
   | .revokeRole a r k => revokeRoleW check c auth sig a r k
+  | .renounceRole r k => renounceRoleW check c auth sig r k
+  | .setRoleAdmin r ar => setRoleAdminW check c auth sig r ar
   | .transferAdmin a lu => transferAdminW check c auth sig a lu
   | .acceptAdmin => acceptAdmin c auth
   | .renounceAdmin => renounceAdminW check c auth sig
   | .checkAuth metas ctxs => check c auth metas ctxs
-  | .advance n => liftTl c (advance c.tl n)
+  | .advance n => advanceC c n
 
 def applyE : CState → List AuthTok → Option (List Meta) → Entry → Except CErr CState := applyW checkAuth
 def applyLegacy : CState → List AuthTok → Option (List Meta) → Entry → Except CErr CState := applyW checkAuthLegacy
@@ -309,13 +357,21 @@ def applyLegacy : CState → List AuthTok → Option (List Meta) → Entry → E
 /-- the operation a context and its descriptor denote -/
 def opOf (self fn : Nat) (args : List Nat) (m : Meta) : Operation := ⟨self, fn, args, m.pred, m.salt⟩
 
-/-- the admin-only entry points and the call (function symbol, arguments) each of them is -/
+/-- the admin-only entry points (`enforce_admin_auth` first) and the call (function symbol,
+arguments) each of them is -/
 def Entry.adminCall : Entry → Option (Nat × List Nat)
   | .updateDelay d => some (FN_UPDATE_DELAY, [vU32 d])
-  | .grantRole a r k => some (FN_GRANT_ROLE, [vAddr a, vSym r, vAddr k])
-  | .revokeRole a r k => some (FN_REVOKE_ROLE, [vAddr a, vSym r, vAddr k])
+  | .setRoleAdmin r ar => some (FN_SET_ROLE_ADMIN, [vSym r, vSym ar])
   | .transferAdmin a lu => some (FN_TRANSFER_ADMIN, [vAddr a, vU32 lu])
   | .renounceAdmin => some (FN_RENOUNCE_ADMIN, [])
+  | _ => none
+
+/-- the entry points guarded by `caller.require_auth()` of a caller named in the arguments:
+(caller, function symbol, arguments) -/
+def Entry.callerCall : Entry → Option (Nat × Nat × List Nat)
+  | .grantRole a r k => some (k, FN_GRANT_ROLE, [vAddr a, vSym r, vAddr k])
+  | .revokeRole a r k => some (k, FN_REVOKE_ROLE, [vAddr a, vSym r, vAddr k])
+  | .renounceRole r k => some (k, FN_RENOUNCE_ROLE, [vSym r, vAddr k])
   | _ => none
 
 end OZ.TimelockController
